@@ -11,6 +11,7 @@ pub mod tracerun;
 pub mod fuzzrun;
 pub mod lockstep;
 pub mod fuzzlock;
+pub mod fdiff;
 
 /// Root of the verification tree: `$VERIF_ROOT` (set by the `vcheck` script from its own location) or `/verif`.
 /// Lets a snapshot of the tree (e.g. a background run) build and run without touching the live one.
